@@ -344,8 +344,6 @@ def rule_wakeups(ctx):
         ("nni_posix_pfd_stop", "nni_posix_pfd.reaped"): "poll(2) back end: a pfd is stopped by its single owner; the branch that sets "
                                                           "reaped itself is taken by that same caller (poller thread or closed queue) "
                                                           "instead of the branch that waits, so no other thread can be waiting on this pfd",
-        ("ws_stop", "nni_ws_dialer.wspend"): "defensive branch: every path that reaps a still-pending websocket removes it from wspend "
-                                             "(with the wake, checked by this rule) first, so ws_stop finds the node inactive",
     }
     for wf, ws, cv, fields in waits:
         for fn in prog.functions:
